@@ -2,7 +2,8 @@
 (* Trace validation for the cluster artifacts.  Events are written by the executor (harness/c12); every verdict in them
    is what the real code answered, every other field is a fact about the input:
      {"ev":"Reset","sid":k,"src":"create"|"fort","art":"lock"|"def","ver":"v1.x.0","n","t","v","net","amounts":[ETH],
-      "comp","gas","fee":[40 hex digits],"wd":[..],"seed","flaw":"none"|<a flaw the writer built in>}
+      "comp","gas","fee":[40 hex digits],"wd":[..],"seed","flaw":"none"|<a flaw the writer built in>,
+      "msig":0|k (k concatenated signatures in every EIP712 signature leaf; then only the hashes are looked at)}
      {"ev":"Create","ok":b}                   `charon create cluster` ran / the NewForT artifact was written
      {"ev":"Load","node":i,"ok":b,"same":b,"view":{...}}   file of node i unmarshalled; same: all node directories
                                               hold the identical file; view: what the loaded object says
@@ -25,13 +26,13 @@ tvars == <<vars, tr, l>>
 R == Trace[1]
 CfgOf(r) == [src |-> r.src, art |-> r.art, ver |-> VerIdx(r.ver), n |-> r.n, t |-> r.t, v |-> r.v, net |-> r.net,
              amounts |-> r.amounts, comp |-> r.comp, gas |-> r.gas, fee |-> r.fee, wd |-> r.wd,
-             signed |-> r.src = "fort" /\ VerIdx(r.ver) >= 3, flaw |-> r.flaw]
+             signed |-> r.src = "fort" /\ VerIdx(r.ver) >= 3, flaw |-> r.flaw, msig |-> r.msig]
 TraceInit == TrInit /\ InitWith(CfgOf(R))
 TReset == IsEvent("Reset") /\ l = 1 /\ UNCHANGED vars
 TCreate == IsEvent("Create") /\ Ev.ok /\ Create
 TLoad == IsEvent("Load") /\ Ev.ok /\ Ev.same /\ Load(Ev.view)
 TVerify == /\ IsEvent("Verify") /\ cur.state = "pristine"
-           /\ Ev.hashes = "ok" /\ Ev.sigs = "ok" /\ Verify
+           /\ Ev.hashes = "ok" /\ (HashOnly \/ Ev.sigs = "ok") /\ Verify
 \* a flawed artifact: at least one of the two verifications refuses it
 TVerifyFlawed == /\ IsEvent("Verify") /\ ~(Ev.hashes = "ok" /\ Ev.sigs = "ok") /\ VerifyFlawed
 TLeaves == /\ IsEvent("Leaves") /\ phase \in {"loaded", "verified"}
@@ -55,7 +56,7 @@ TTamper == /\ IsEvent("Tamper")
 TLoadT == IsEvent("LoadT") /\ (LoadT(Ev.ok, Ev.heq) \/ (Padded /\ Ev.ok /\ cur.state = "altered"
                                                           /\ cur' = [cur EXCEPT !.state = "loaded"]
                                                           /\ verdict' = "none" /\ UNCHANGED <<cfg, phase, lk, obs>>))
-Observed == IF Ev.hashes = "ok" /\ Ev.sigs = "ok" THEN "intact" ELSE "detected"
+Observed == IF Ev.hashes = "ok" /\ (HashOnly \/ Ev.sigs = "ok") THEN "intact" ELSE "detected"
 TVerifyT == /\ IsEvent("Verify") /\ cur.state = "loaded"
             /\ \/ VerifyT(Observed)
                \/ /\ Padded /\ cur' = [cur EXCEPT !.state = "done"] /\ verdict' = Observed
